@@ -201,6 +201,17 @@ func propC17(e *Env) {
 		return
 	}
 	desc := fmt.Sprintf("%s one-shot=%v cancel-early=%v writers=%d", pattern, oneShot, cancelled, nw)
+	if !cancelled && oneShot && !dgram {
+		// a one-shot stream socket ends by itself when its single connection closes
+		if !r.consumed {
+			e.Fail("not-closed", "%s: the one-shot stream did not end after its connection closed; live: %s", desc, liveString(e))
+			return
+		}
+		r.cancel() // releases the harness's own context (and mtail's timed wakers in that configuration)
+		if !r.quiesce() {
+			return
+		}
+	}
 	// a writer that is still blocked after cancellation (its connection was never accepted) is fine;
 	// the stream itself must have ended
 	if !r.consumed {
